@@ -208,6 +208,15 @@ func (c *Ctx) chunk(s string) []string {
 
 func (c *Ctx) genWriter(i int, kind string) outWriter {
 	w := outWriter{Kind: kind, Chunks: c.chunk(c.outBytes(14))}
+	if c.Rng.Intn(12) == 0 {
+		// a big block (more than any buffered writer's default 4 KiB): it must still reach the shared
+		// stream as the writes the model prescribes (one per group block, one per prefixed line)
+		line := strings.Repeat(string(rune('a'+c.Rng.Intn(26))), 700+c.Rng.Intn(900))
+		for k := 3 + c.Rng.Intn(8); k > 0; k-- {
+			w.Chunks = append(w.Chunks, line+"\n")
+		}
+		c.Hit("big-block")
+	}
 	if c.Rng.Intn(2) == 0 {
 		w.Err = make([]bool, len(w.Chunks))
 		for i := range w.Err {
